@@ -192,6 +192,16 @@ def clock_forms(h, mi, groups=None):
             # ("N uhr morgens" is not used: "morgen" inside it is also "tomorrow", a homograph of the lexicon)
             for f in ("%d uhr vormittags", "%d:00 in the morning", "at %d in the morning", "%d o'clock in the morning"):
                 out.append(("clock:h uhr POD", f % h, C))
+    # the small hours "at night" and hour 1 "at noon" (recorded findings of C06: the part-of-day shift of the library is by name only)
+    if mi == 0 and 1 <= h <= 5:
+        for f in ("%d uhr nachts", "%d at night", "nachts um %d uhr"):
+            out.append(("clock:small hour at night", f % h, C))
+    if mi == 0 and h == 0:
+        for f in ("12 uhr nachts", "12 at night"):
+            out.append(("clock:small hour at night", f, C))
+    if mi in (0, 30) and h == 13:
+        for f in (("1 uhr mittags", "mittags um 1 uhr") if mi == 0 else ("1:30 mittags",)):
+            out.append(("clock:hour one at noon", f, C))
     if h == 12 and mi == 30:
         for f in ("halb eins nachmittags", "nachmittags um halb eins", "halb 1 nachmittags"):
             out.append(("clock:spoken + POD", f, C))
